@@ -77,7 +77,10 @@ MOpen == /\ Consume("open")
 MFlips == /\ Consume("flips") /\ Ev.nacc = 0 /\ Ev.baseok
           /\ UNCHANGED <<nforged, ncorrect>>
 
-MAppend == /\ Consume("append")
+\* the store keeps accepting writes: neither the entry under test nor the honest event appended after it is refused
+\* by the store itself (an entry that is to be dropped is dropped, it does not stop the store from working)
+WritesOK == ("apperr" \in DOMAIN Ev) => (~Ev.apperr /\ ~Ev.senterr)
+MAppend == /\ Consume("append") /\ WritesOK
            /\ (Forged(Ev.tm) => Ev.emr = 0 /\ Ev.gme = 0 /\ ~Ev.listed /\ Ev.pre = Ev.post)
            /\ (CorrectlySigned(Ev.tm) => Ev.emr = 1 /\ Ev.gme = 1 /\ Ev.listed)
            /\ Ev.emr <= 1 /\ Ev.gme <= 1
